@@ -341,6 +341,24 @@ struct qsbr_state {
 
   /// Increment the epoch and reset the threads in previous epoch count to the
   /// total thread count.
+  /// Decrement the number of threads in the previous epoch in \a word. If it
+  /// becomes zero, the result is the "epoch change in progress" state.
+  [[nodiscard, gnu::const]] static constexpr type
+  dec_threads_in_previous_epoch(type word) noexcept {
+    assert_invariants(word);
+    UNODB_DETAIL_ASSERT(get_threads_in_previous_epoch(word) > 0);
+
+    const auto result = word - 1;
+
+    assert_invariants(result);
+    UNODB_DETAIL_ASSERT(get_epoch(word) == get_epoch(result));
+    UNODB_DETAIL_ASSERT(get_threads_in_previous_epoch(word) - 1 ==
+                        get_threads_in_previous_epoch(result));
+    UNODB_DETAIL_ASSERT(get_thread_count(word) == get_thread_count(result));
+
+    return result;
+  }
+
   [[nodiscard, gnu::const]] static constexpr type inc_epoch_reset_previous(
       type word) noexcept {
     assert_invariants(word);
